@@ -44,6 +44,26 @@ def hand_programs():
     return P
 
 
+def exhaustive_programs():
+    """Every program  t0, t1 leaves (all requires_grad combinations); t2 = op1(ta, tb); t3 = op2(tc, td); t3.backward()
+    with op in {add, mul} and every choice of operands among the tensors that exist: 4 * 8 * 18 = 576 programs."""
+    P = []
+    for r0 in (True, False):
+        for r1 in (True, False):
+            for o1 in ("add", "mul"):
+                for a in range(2):
+                    for b in range(2):
+                        for o2 in ("add", "mul"):
+                            for c in range(3):
+                                for d in range(3):
+                                    P.append([{"k": "leaf", "id": 0, "data": [2], "shape": [], "req": r0},
+                                              {"k": "leaf", "id": 1, "data": [3], "shape": [], "req": r1},
+                                              {"k": "op", "op": o1, "args": [a, b], "out": [2]},
+                                              {"k": "op", "op": o2, "args": [c, d], "out": [3]},
+                                              {"k": "backward", "root": 3, "seed": [1]}])
+    return P
+
+
 def reorder(steps, rng):
     """The same program with independent steps in another (random topological) order."""
     head = [s for s in steps if s["k"] in ("leaf", "op")]
@@ -121,6 +141,20 @@ def run(ctx):
     ctx.tie("engine/arena vs wrapper contract", "correspondence", len(execs), distinct, mism + list(errs),
             note="children/requires_grad/grad_fn of every created tensor vs op_node (req = any(operands) and mode; has_fn iff req; "
                  "children = () iff not req), operands older than results (wf)")
+
+    # ---- exhaustive small space ---------------------------------------------------------------------
+    small = exhaustive_programs()
+    sx = [K.execute(p) for p in small]
+    for p, E in zip(small, sx):
+        v = K.oracle_judge(E) or K.oracle_call_counts(E)
+        if v:
+            oracle_fail.append((p, v))
+    tm, cm, errs = K.run_corr(ctx, sx, "small", chunk=192)
+    mism = list(errs) + [{"program": K.describe(small[i]), "steps": small[i], "implementation": [o for o in sx[i].obs if o is not None][-1]} for i in tm]
+    mism += [{"program": K.describe(small[i]), "arena": K.arena_of(sx[i].R), "contract": "violated"} for i in cm]
+    ctx.tie("engine/all two-op programs over two leaves", "correspondence", len(sx), len({structure_key(E) for E in sx}), mism, exhaustive=True,
+            note="every choice of operands, op in {add, mul}, every requires_grad combination; %d of them must raise (root does not require grad)"
+                 % sum(1 for E in sx if E.raised_at is not None))
 
     # ---- oracle: order of construction of independent branches --------------------------------------
     nre = 150 if ctx.quick else 1500
